@@ -26,5 +26,6 @@ InDomain(in, obs) ==
 Conforms(in, obs) == Measured(obs) /\ obs.exit = 0 /\ obs.out = Run(in, obs).out
 
 Describe(in) == [comps |-> Parsed(in).comps]
+Beyond(in) == FALSE
 INSTANCE TraceCheck
 =============================================================================
